@@ -657,6 +657,12 @@ func MessagePool() []ast.Value {
 	return []ast.Value{str("it's 5% \"x\""), num(42), ast.Boolean(true), ast.Number("1.5")}
 }
 
+// MessagePoolFalsy: the values a truth test takes for "no value" - false, 0, the empty string - and an
+// ordinary one.
+func MessagePoolFalsy() []ast.Value {
+	return []ast.Value{ast.Boolean(false), num(0), str(""), str("x")}
+}
+
 // FamilyVariableIndex: the nested-in-nested constraint whose outer quantified variable is the
 // k-th variable of its validation (k-1 always-true nested constraints come first), so that every
 // name the variable generator hands out is exercised as an enclosing scope of generated code.
